@@ -131,7 +131,7 @@ PLANNED = {
 }
 
 # properties whose model, theorems and tie are built and integrated
-LANDED = ["C01"]
+LANDED = ["C01", "C06"]
 CLAIMED = {k: PLANNED[k] for k in LANDED}
 
 ALL = ["C%02d" % i for i in range(1, 21)]
